@@ -1,11 +1,12 @@
 (** Dispatch table used by the extracted runner: property number -> model runner / monitor. *)
 From RRE Require Import Base.Sx.
-From RRE Require Model.Watermark Model.Tms Model.ProofGraph.
+From RRE Require Model.Watermark Model.Tms Model.ProofGraph Model.Undo.
 Open Scope Z_scope.
 
 Definition run_by_id (id : Z) (c : sx) : sx :=
   match id with
   | 8 => Tms.run_sx c
+  | 10 => Undo.run_sx c
   | 13 => Watermark.run_sx c
   | 17 => ProofGraph.run_sx c
   | _ => sx_bad
@@ -14,6 +15,7 @@ Definition run_by_id (id : Z) (c : sx) : sx :=
 Definition ok_by_id (id : Z) (c o : sx) : bool :=
   match id with
   | 8 => Tms.ok_sx c o
+  | 10 => Undo.ok_sx c o
   | 13 => Watermark.ok_sx c o
   | 17 => ProofGraph.ok_sx c o
   | _ => false
